@@ -1492,6 +1492,11 @@ func ruleWSSpecOver(c *Ctx, text string, reach map[*ssa.Function]bool, minFuncs 
 				bad++
 				c.Viol("WS-SPEC", shortFuncName(fn)+"→"+f.String(), in.Pos(), f.String()+" treats NBSP, NEL, form feed, vertical tab … as white space; the block structure knows only space, tab, LF and CR")
 			}
+			// a module classifier that accepts the space and also wider white space (form feed, NBSP, EM SPACE, …)
+			if f != nil && p.InModule(f) && f.Blocks != nil && len(f.Params) == 1 && wideWhitespaceClassifier(p, f) {
+				bad++
+				c.Viol("WS-SPEC", shortFuncName(fn)+"→"+f.Name(), in.Pos(), f.Name()+" accepts white space beyond space, tab, LF and CR (form feed, NBSP, …); at line level those are content")
+			}
 		})
 	}
 	if bad == 0 {
@@ -2602,4 +2607,41 @@ func lineCompleteThroughHelper(c *Ctx, fn *ssa.Function, b *ssa.BasicBlock, si i
 		return 0, false
 	}
 	return count, true
+}
+
+var wideWSMemo = map[*ssa.Function]int{}
+
+// wideWhitespaceClassifier: f is a one-parameter predicate over bytes/runes whose exact accept set (BSET) contains the
+// space and at least one of form feed, vertical tab, NEL, NBSP, EM SPACE, IDEOGRAPHIC SPACE.
+func wideWhitespaceClassifier(p *Program, f *ssa.Function) bool {
+	if v, ok := wideWSMemo[f]; ok {
+		return v == 1
+	}
+	wideWSMemo[f] = 0
+	res := f.Signature.Results()
+	if res.Len() != 1 {
+		return false
+	}
+	if b, ok := res.At(0).Type().Underlying().(*types.Basic); !ok || b.Kind() != types.Bool {
+		return false
+	}
+	bs := newBSET(p)
+	t := bs.Table(f)
+	if t.why != "" {
+		return false
+	}
+	acc := func(v int64) bool {
+		o, ok := t.lookup(v)
+		return ok && o.kind == oRet && o.val != 0
+	}
+	if !acc(' ') {
+		return false
+	}
+	for _, w := range []int64{'\f', '\v', 0x85, 0xa0, 0x2003, 0x3000} {
+		if acc(w) {
+			wideWSMemo[f] = 1
+			return true
+		}
+	}
+	return false
 }
